@@ -29,12 +29,21 @@ def check(rep, tier, seed):
     # fixed managed encodes (average only / average + generous maximum, noise and tones, no control settings): every run
     # exercises the packet selection of the bitrate manager on enough packets, whatever the seed
     FIXED = [(1, 22050, -1, 32000, -1, 1), (2, 44100, -1, 128000, -1, 1), (6, 48000, -1, 256000, -1, 2), (2, 44100, 256000, 96000, -1, 1)]
+    # fixed lowest-quality encodes of loud input (square wave, noise 8x beyond full scale, full-scale noise): the sparsest residue
+    # books, where the quantised vector most often lands on an unused entry and the encoder has to pick a neighbour
+    FIXEDQ = [(2, 8000, -0.1, 7, 60000), (2, 8000, -0.1, 6, 60000), (6, 22050, -0.1, 6, 40000), (1, 44100, -0.1, 7, 60000), (6, 44100, 0.3, 6, 40000),
+              (6, 22050, -0.1, 1, 40000)]
     for k in range(nenc):
         if k < len(FIXED):
             ch, rate, mx, nom, mn, sig = FIXED[k]
             n = 20000
             specs.append("%d %d %d 1 %d %d %d %d %d %d %d" % (k, ch, rate, mx, nom, mn, n, sig, 12345 + k, 0))
             metas.append({"case": k, "ch": ch, "rate": rate, "managed": [mx, nom, mn], "samples": n, "signal": sig, "ctl": 0, "fixed": True})
+            continue
+        if k < len(FIXED) + len(FIXEDQ):
+            ch, rate, q, sig, n = FIXEDQ[k - len(FIXED)]
+            specs.append("%d %d %d 0 %d %d %d %d %d" % (k, ch, rate, f32bits(q), n, sig, 12345 + k, 0))
+            metas.append({"case": k, "ch": ch, "rate": rate, "quality": q, "samples": n, "signal": sig, "ctl": 0, "fixed": True})
             continue
         ch, rate = rng.choice(CONFIGS)
         if ch == 255 and rng.below(4):
@@ -176,7 +185,7 @@ def check(rep, tier, seed):
                      sample=m if int(k) % 13 == 0 else None)
     rep.coverage["rule"] = ("real encodes: 18 channel/rate configurations (1-8 and 255 channels, 8-192 kHz), qualities -0.1..1.0, managed (average only / "
                             "max / min+max / CBR), control settings (coupling off, lowpass, impulse tune, small reservoir), signals: silence, full-scale noise, "
-                            "tones, impulses, DC, denormals, 8x beyond +-1, full-scale square, bursts; 0..90000 samples. Every header and audio packet goes "
+                            "tones, impulses, DC, denormals, 8x beyond +-1, full-scale square, bursts; 0..90000 samples; every run also has 4 fixed managed encodes and 6 fixed lowest-quality encodes of loud input (sparse residue books). Every header and audio packet goes "
                             "through the real decoder and through the strict model parser/decoder: verdicts, all header fields, per-packet mode/window flags/"
                             "bits left and (every third packet) the full spectrum must agree exactly; the property oracle checks field equality with the "
                             "encoder's info, window-flag agreement with the neighbours, consumption to within the last byte (unmanaged), no rejection and no "
